@@ -5,14 +5,16 @@ CONSTANTS
   MaxRounds = 20
   CommitFees = {0, 4344, 6744}
   SmallLo = 0
-  SmallHi = 360
-  SmallExtra = {1298, 1299, 1300, 1301, 1302, 5000, 400000}
+  SmallHi = 2
+  SmallExtra = {199, 200, 201, 353, 354, 355, 1299, 1300, 1301, 5000, 400000}
   Rems = {0, 1, 999}
-  Near = 2
+  Near = 1
   Lo = 100
   Hi = 100
   Step = 1
   RbfDepth = 4
+  PeerDepth = 2
+  PeerWide = TRUE
   TightCap = FALSE
 INVARIANTS Synced TxInvariants
 CHECK_DEADLOCK FALSE
